@@ -299,17 +299,22 @@ func (d *dsm) one(id string, c *disCase, cuts int, rng *rand.Rand) bool {
 	for _, t := range c.tags {
 		r.tag(t)
 	}
+	cls := "OK-4+"
 	switch {
 	case pan != nil:
-		r.tag("reply:PANIC")
+		cls = "PANIC"
 	case err != nil:
-		r.tag("reply:ERR")
+		cls = "ERR"
 	case len(res) == 0:
-		r.tag("reply:OK-0")
+		cls = "OK-0"
 	case len(res) < 4:
-		r.tag("reply:OK-1..3")
-	default:
-		r.tag("reply:OK-4+")
+		cls = "OK-1..3"
+	}
+	r.tag("reply:" + cls)
+	for _, t := range c.tags {
+		if strings.HasPrefix(t, "family:") {
+			r.tag(t + "/" + cls)
+		}
 	}
 	r.count(req, c.nontriv)
 	if len(req) < 3000 {
@@ -695,6 +700,13 @@ var disVocab = []string{
 	"MOVQ $0x3b, 0(SP)", "MOVL $0x1, AX", "MOVL $0x27, BP", "main.f(SB)", "é", "\v", "\f", "x", "(SB)", "(SP)", "SYS", "CALL syscall.Syscall(SB)",
 }
 
+// pieces of number-loading instructions for the operand-fuzz family
+var disFuzzVocab = []string{
+	"MOV", "MOVQ", "MOVL", "MOVW", "MOVQQ", "MOVq", "MOV ", "MOVQ ", "MOVL ", "MOVB ", " ", " ", "$", "$", "$", ", ", ", ", ", ", ",", "AX", "BP", "BPX", "AX, AX",
+	"0(SP)", "0(SP)", "(SP)", "0(SP) ", "0x3b", "59", "1", "0", "073", "0o73", "0b11", "0X3B", "_", "__", "-", "+", "0x", "9223372036854775807", "9223372036854775808",
+	"0x7fffffffffffffff", "0x8000000000000000", "MOVQ $0x3b, 0(SP)", "MOVL $0x1, AX", "MOVL $0x27, BP", "$0x1, AX", "$5, 0(SP)", "\t", "\r", "\u00a0", "\xff", "é", "x", "8", "9", "a", "f", "g", "e3",
+}
+
 func (g *disGen) wildLine() string {
 	rng := g.rng
 	g.odd++
@@ -890,6 +902,58 @@ func (r *runner) disasmStream(rng *rand.Rand) error {
 				lines = append(lines, g.wildLine())
 			}
 			emit(id, &disCase{arch: archName, fail: "-", content: joinLines(rng, lines, g.tags), tags: tagList(g.tags), nontriv: true}, 2)
+		case k < 76:
+			// one function, one adversarial number-loading line, one site: exercises the two regular
+			// expressions (leftmost start, optional capital, greedy operand) and ParseInt through
+			// the reported assembly text and number
+			g.tag("family:operand-fuzz")
+			raw := rng.Intn(2) == 0
+			operand := g.numText()
+			if rng.Intn(5) < 2 {
+				var ob strings.Builder
+				for m := 1 + rng.Intn(4); m > 0; m-- {
+					ob.WriteString(g.pick(disFuzzVocab))
+				}
+				operand = ob.String()
+				g.tag("operand:token-soup")
+			}
+			dst := "0(SP)"
+			if raw {
+				dst = []string{"AX", "BP"}[rng.Intn(2)]
+			}
+			if rng.Intn(8) == 0 {
+				dst = []string{"AX", "BP", "0(SP)", "CX", "BPX", "(SP)", "0(SP), AX", "AX, 0(SP)"}[rng.Intn(8)]
+			}
+			fz := []string{"", "", "", "MOV ", "MOVQ $1, ", "x", "MOV MOVQ $5, 0(SP) ", "MOVL $2, AX "}[rng.Intn(8)] +
+				[]string{"MOV", "MOVQ", "MOVL", "MOVB", "MOVQQ", "MOVq", "MOVQ", "MOVL"}[rng.Intn(8)] + " $" + operand + ", " + dst +
+				[]string{"", "", "", "\t", ", AX", ", 0(SP)", "X", " // , BP", " ; MOVQ $7, 0(SP)"}[rng.Intn(9)]
+			if rng.Intn(4) == 0 && len(fz) > 0 {
+				// perturb one byte position: delete it or put a token there
+				g.tag("operand:perturbed")
+				i := rng.Intn(len(fz))
+				if rng.Intn(2) == 0 {
+					fz = fz[:i] + fz[i+1:]
+				} else {
+					fz = fz[:i] + g.pick(disFuzzVocab) + fz[i:]
+				}
+			}
+			fz = strings.ReplaceAll(fz, "\n", " ")
+			var b strings.Builder
+			b.WriteString(fz)
+			lines := []string{"TEXT main.f(SB) /src/f.go"}
+			if rng.Intn(4) == 0 {
+				lines = append(lines, g.ins(g.pick(disFillers)))
+			}
+			lines = append(lines, "  f.go:1\t0x1\t\t00\t\t"+b.String())
+			if rng.Intn(3) == 0 {
+				lines = append(lines, g.ins(g.pick(disFillers)))
+			}
+			if raw {
+				lines = append(lines, "  f.go:2\t0x2\t\t0f05\t\t"+g.rawIns())
+			} else {
+				lines = append(lines, "  f.go:2\t0x2\t\te8\t\tCALL "+g.pick(disCallees))
+			}
+			emit(id, &disCase{arch: archName, fail: "-", content: joinLines(rng, lines, g.tags), tags: tagList(g.tags), nontriv: true}, 0)
 		case k < 84:
 			g.tag("family:single-site")
 			lines := []string{g.textLine()}
@@ -915,7 +979,8 @@ func (r *runner) disasmStream(rng *rand.Rand) error {
 			emit(id, &disCase{arch: archName, fail: fail, content: joinLines(rng, lines, g.tags), tags: tagList(g.tags), nontriv: true}, 0)
 		case k < 97:
 			g.tag("family:empty-or-blank")
-			content := []string{"", "\n", "\n\n", "\r\n", "\r", " ", "TEXT", "TEXT\n", "TEXT\r\n", "SYSCALL", "SYSCALL\n", "\nSYSCALL", "TEXT \nSYSCALL\n", "INT $0x80", "CALL unix.Syscall(SB)"}[rng.Intn(15)]
+			content := []string{"", "\n", "\n\n", "\r\n", "\r", " ", "TEXT", "TEXT\n", "TEXT\r\n", "SYSCALL", "SYSCALL\n", "\nSYSCALL", "TEXT \nSYSCALL\n", "INT $0x80", "CALL unix.Syscall(SB)",
+				strings.Repeat("\n", 150), strings.Repeat("\r\n", 120), strings.Repeat("\n", 5000) + "SYSCALL"}[rng.Intn(18)]
 			emit(id, &disCase{arch: archName, fail: "-", content: []byte(content), tags: tagList(g.tags), nontriv: len(strings.TrimSpace(content)) > 0}, 0)
 		default:
 			// truncation of a valid listing at every line boundary (and at a few random bytes)
